@@ -19,7 +19,7 @@
 extern "C" {
 __attribute__((used)) const char* __asan_default_options() {
 	return "exitcode=77:detect_leaks=0:allocator_may_return_null=0:abort_on_error=0:symbolize=1:"
-		   "handle_segv=1:handle_sigfpe=1:handle_abort=1:malloc_context_size=4:detect_stack_use_after_return=0:"
+		   "handle_segv=1:handle_sigfpe=1:handle_abort=1:malloc_context_size=12:detect_stack_use_after_return=0:"
 		   "print_summary=1:fast_unwind_on_malloc=1:max_allocation_size_mb=1024:hard_rss_limit_mb=6000";
 }
 __attribute__((used)) const char* __ubsan_default_options() { return "print_stacktrace=0:halt_on_error=0"; }
